@@ -3,7 +3,7 @@
    by the correspondence runs of harness/cmd/c06). *)
 From Coq Require Import List ZArith Bool.
 Import ListNotations.
-From GU Require Import C06.Model C06.Proofs.
+From GU Require Import C06.Model C06.Proofs C06.Vfs C06.ProofsVfs.
 Local Open Scope Z_scope.
 
 (* Query calls (read, the listings, exists / is-file / is-dir / is-empty, size, hash, path conversion) never change the tree,
@@ -55,6 +55,59 @@ Theorem move_into_itself_refused : forall t s str d dtr,
 Proof. exact move_into_itself_refused_l. Qed.
 Print Assumptions move_into_itself_refused.
 
+(* Second sentence, on R, for EVERY call (mutating or not), every tree and every argument for which R is defined:
+   a path that is not at or below the call's destination (or, for move / rm / clean, its source) keeps the entry it had,
+   and is unchanged altogether unless it is an ancestor of the destination (mkdir -p of the parents creates directories). *)
+Theorem only_touches_destination : forall t c r t' q,
+  exec t c = Out r t' -> outside (roots c) q = true ->
+  (forall e, lookup t q = Some e -> lookup t' q = Some e) /\ (towards (roots c) q = false -> lookup t' q = lookup t q).
+Proof. intros t c r t' q H. exact (only_touches_destination_l t c r t' H q). Qed.
+Print Assumptions only_touches_destination.
+
+(* ... lifted by induction to programs of ANY length: what no call of the program names as destination is the same at the end. *)
+Theorem program_only_touches_destinations : forall cs t t' q,
+  run t cs = Some t' ->
+  (forall c, In c cs -> outside (roots c) q = true /\ towards (roots c) q = false) ->
+  lookup t' q = lookup t q.
+Proof. exact program_frame_l. Qed.
+Print Assumptions program_only_touches_destinations.
+
+Theorem program_never_alters_other_entries : forall cs t t' q e,
+  run t cs = Some t' -> (forall c, In c cs -> outside (roots c) q = true) ->
+  lookup t q = Some e -> lookup t' q = Some e.
+Proof. exact program_preserves_l. Qed.
+Print Assumptions program_never_alters_other_entries.
+
+(* A copy never changes its source, also when source and destination overlap: every path at or below the source — existing
+   or not — is exactly as before, whatever the destination (inside the source, a parent of it, equal to it, elsewhere). *)
+Theorem copy_leaves_source : forall t s str b r t',
+  exec t (Copy (P s str) b) = Out r t' -> forall q, is_prefix s q = true -> lookup t' q = lookup t q.
+Proof. exact copy_leaves_source_l. Qed.
+Print Assumptions copy_leaves_source.
+
+(* Without the "own parent" refusal the statement is false: the witness found while proving it (a/b/c/b copied to a, which
+   resolves to a/b) overwrites the source file a/b/c/b/e.txt; it is replayed on the implementation by the harness corpus. *)
+Example copy_over_own_parent_witness :
+  let t := [([0], D); ([0;1], D); ([0;1;2], D); ([0;1;2;1], D); ([0;1;2;1;4], F [1]);
+            ([0;1;2;1;2], D); ([0;1;2;1;2;1], D); ([0;1;2;1;2;1;4], F [2])] in
+  lookup (graft (mkdirp t [0;1]) [0;1;2;1] [0;1]) [0;1;2;1;4] = Some (F [2]) /\
+  exec t (Copy (P [0;1;2;1] false) (P [0] false)) = Out (RErr EInvalid) t.
+Proof. split; reflexivity. Qed.
+
+(* Refinement M <= R: on a well-formed tree, for every call that M covers (mkdir, touch, write, read, ls, exists, is-file,
+   is-dir, is-empty, size) and that is free of kind conflicts, the mechanised model of the VFS code over back-end primitives
+   returns exactly the result and the tree of the reference model.  (Copy / Move / Rm / Clean are not covered by M:
+   for them the implementation is compared with R directly.) *)
+Theorem vfs_refines_ref_partial : forall t c m r t',
+  wf t -> m_exec t c = Some m -> exec t c = Out r t' -> m_r m = r /\ m_t m = t'.
+Proof. exact m_refines_r_l. Qed.
+Print Assumptions vfs_refines_ref_partial.
+
+(* ... and every path through the modelled code closes the handles it opened (success and failure paths alike). *)
+Theorem vfs_handles_balanced_partial : forall t c m, m_exec t c = Some m -> m_opened m = m_closed m.
+Proof. exact m_handles_balanced_l. Qed.
+Print Assumptions vfs_handles_balanced_partial.
+
 (* Non-vacuity: the witnesses of D12 / D28 / D24 / D26 evaluated on R. *)
 Example c06_d12 : exec [([0], D); ([0;1], F [1])] (Copy (P [0] false) (P [0;1;2] false)) = Unconstrained.
 Proof. reflexivity. Qed.   (* a/b is a file: kind conflict *)
@@ -67,6 +120,10 @@ Example c06_d24 : exec [([0], D); ([0;1], F [7]); ([3], D)] (Move (P [0;1] false
 Proof. reflexivity. Qed.
 Example c06_d26 : exec [([0], D); ([0;1], F [7])] (Copy (P [0;1] false) (P [0] false)) = Out ROk [([0], D); ([0;1], F [7])].
 Proof. reflexivity. Qed.
+Example c06_wf_nonvacuous : wf [([0], D); ([0;1], F [7]); ([3], D)] /\
+  m_exec [([0], D); ([0;1], F [7]); ([3], D)] (Touch (P [3;2] false)) =
+    Some (mkM ROk [([0], D); ([0;1], F [7]); ([3], D); ([3;2], F [])] 1 1).
+Proof. split; [apply wf_b_sound|]; reflexivity. Qed.
 Example c06_cp_r_merge :
   exec [([0], D); ([0;1], F [7]); ([3], D); ([3;0], D); ([3;0;2], F [9])] (Copy (P [0] false) (P [3] false))
   = Out ROk [([0], D); ([0;1], F [7]); ([3], D); ([3;0], D); ([3;0;2], F [9]); ([3;0;1], F [7])].
